@@ -128,10 +128,13 @@ func vp_C08_levels() {
 	}
 }
 
-// vp:check C08 both configs=version:10|11|12|org.matrix.hydra.11 K=12 timeout=900
+// vp:check C08 both configs=version:1|6|9|10|11|12|org.matrix.hydra.11 K=12 timeout=900
 // vp_C08_integer_levels: from room version 10 on, a power-levels event is accepted only if every level in it is a
 // JSON integer. One level of an otherwise harmless change (Alice, level 100, lowers / sets something to 5) is given
 // as null, a string, a fraction, an exponent spelling, a boolean, an object - in each of the places a level can stand.
+// Before version 10 levels are read the way Python's int() reads them: strings, fractions and exponent spellings count
+// with their integer value (5), null / booleans / objects are refused - and a number beyond every level (1e19, which
+// does not fit 64 bits) is a level above the sender's and must be refused too, not wrapped around.
 func vp_C08_integer_levels() {
 	ver := RoomVersion(vpConfig("version"))
 	room, create := vpRoom, "$create:x"
@@ -150,7 +153,7 @@ func vp_C08_integer_levels() {
 	_ = auth.AddEvent(vpMkEvent(ver, "$pl:x", room, vpCarol, spec.MRoomPowerLevels, vpStrPtr(""), oldPL))
 	_ = auth.AddEvent(vpMkEvent(ver, "$ma:x", room, vpAlice, spec.MRoomMember, vpStrPtr(vpAlice), vpJObj("membership", spec.Join)))
 
-	kind := vpChoice("kind", "integer", "null", "string", "fraction", "exponent", "boolean", "object")
+	kind := vpChoice("kind", "integer", "null", "string", "fraction", "exponent", "boolean", "object", "huge-exponent", "huge-negative-exponent")
 	var lvl interface{}
 	switch kind {
 	case "integer":
@@ -165,6 +168,10 @@ func vp_C08_integer_levels() {
 		lvl = vpJNumLit("5e0")
 	case "boolean":
 		lvl = true
+	case "huge-exponent":
+		lvl = vpJNumLit("1e19")
+	case "huge-negative-exponent":
+		lvl = vpJNumLit("-1e19")
 	default:
 		lvl = vpJObj()
 	}
@@ -186,7 +193,20 @@ func vp_C08_integer_levels() {
 	kv := append([]interface{}{"users", users, "ban", ban, "events", events, "notifications", notif}, extra...)
 	ev := vpMkEvent(ver, "$npl:x", room, vpAlice, spec.MRoomPowerLevels, vpStrPtr(""), vpJObj(kv...))
 	got := Allowed(ev, auth, vpUserIDForSender) == nil
-	vpAssert("accepted-iff-integer", got == (kind == "integer"))
+	if n, _ := vpVerNum(ver); n >= 10 || vpIsV12(ver) {
+		vpAssert("accepted-iff-integer", got == (kind == "integer"))
+	} else {
+		switch kind {
+		case "integer", "string", "fraction", "exponent":
+			vpAssert("lenient-spellings-count-as-5", got)
+		case "huge-exponent":
+			vpAssert("level-beyond-64-bits-is-above-the-sender", !got)
+		case "huge-negative-exponent":
+			// far below every level: lowering something to it is allowed by the rules; refusing it as unrepresentable is fine too
+		default:
+			vpAssert("not-a-number-refused", !got)
+		}
+	}
 	vpReach("accepted", got)
 	vpReach("rejected", !got)
 }
